@@ -29,6 +29,8 @@ META = {
             "Each returned stress is compared with an independent bracketing solve of the defining equation at the requested tolerance; RuntimeError is counted as the property allows, other exception types are violations.", "3 C06"),
     "C07": ("exploration", "runtime monitoring: icontract postconditions on the four Binned look-ups (recomputed edge-grid oracle, bitwise), exceptional-exit wrapper for the range guard, consequence monitors",
             "Every look-up executed (also those made inside the HCM detector workloads) is checked bitwise against the wrapped law evaluated on the class-edge grid; loads exactly on, one ulp below and above every edge are required classes.", "3 C07"),
+    "C08": ("exploration", "runtime monitoring: reference-model oracle (independent Basquin/probit model) plus algebraic relation monitors and a snapshot monitor on the source object",
+            "Every evaluated curve is compared with an independent model and with the inverse, slope, continuity, Miner, quantile and transform-group relations; broadcast evaluation is compared with per-element scalar evaluation.", "3 C08"),
     "C03": ("exploration", "runtime monitoring: metamorphic relation monitors between executions (refinement, negation, "
             "affine map, NaN insertion, Series index types), sanitizer replays",
             "Relations between pairs of real executions, each with its own counter; ties that rounding may flip are "
